@@ -47,7 +47,8 @@ def run(tier: str, seed: int) -> Report:
                 "<Class>.from_pdu(pdu), UDSRequest.parse_dynamic(pdu) and UDSClient.<method>() on a scripted "
                 "transport; cases = every abstract case TLC enumerates (kind x suppress bit x boundary class of each "
                 "field x record length class x group count x address/size widths 1..15 x format given/computed) plus "
-                "seeded random parameter records; distinct = distinct (kind, parameters); non-trivial = the request "
+                "seeded random parameter records, plus re-used request objects (constructed with one in-range parameter record, "
+                "public fields then assigned another one, serialised and sent with UDSClient.request); distinct = distinct (kind, parameters); non-trivial = the request "
                 "has at least one parameter besides the service id")
     rep.assumptions = [
         "ISO 14229-1 layouts are transcribed in spec/UdsLayoutContract.tla (from the standard's message tables, not "
@@ -125,6 +126,43 @@ def run(tier: str, seed: int) -> Report:
                             "wire": bytes(t["wire"]["b"]).hex() if t["wire"]["ok"] else None}, "notes": notes[i]})
     if executed_abs != n_tlc_cases:
         raise Machinery("not every TLC-enumerated case was executed")
+    # ---- 5b. re-used request objects: constructed with case A, public fields assigned the values of case B
+    # (in range, same kind): the object a user holds then HAS the field values of B, its bytes must be B's layout
+    by_kind: dict[str, list[int]] = {}
+    for i, c in enumerate(cases):
+        if verdicts[i][1] == "in" and not verdicts[i][2] and traces[i]["pdu"]["ok"]:
+            by_kind.setdefault(c["kind"], []).append(i)
+    acases: list[dict[str, Any]] = []
+    aobjs: list[Any] = []
+    for k, idxs in sorted(by_kind.items()):
+        for n, ib in enumerate(idxs):
+            ia = idxs[(n + 1) % len(idxs)] if n % 2 == 0 else idxs[(n * 7 + 3) % len(idxs)]
+            if cases[ia]["f"] == cases[ib]["f"]:
+                continue
+            o = R.assigned_object(classes[k], k, cases[ia]["f"], cases[ib]["f"])
+            if o is not None:
+                acases.append({"kind": k, "f": cases[ib]["f"], "from": cases[ia]["f"]})
+                aobjs.append(o)
+    atraces = []
+    for c, o in zip(acases, aobjs):
+        rec, _nt = R.exec_request(classes[c["kind"]], c["kind"], c["f"], obj=o)
+        atraces.append(rec)
+    for rec, w in zip(atraces, R.exec_wire_objects(aobjs)):
+        rec["wire"] = w
+    if atraces:
+        averd, _, ares = R.validate("Trace_UdsLayoutReq", atraces, chunk=3000)
+        for res in ares:
+            rep.add_tlc(res, "Trace_UdsLayoutReq batch (re-used objects)")
+        for i, (c, t) in enumerate(zip(acases, atraces)):
+            for v in averd[i][2]:
+                rep.violate(v, {"kind": classes[c["kind"]].__name__, "path": "fields-assigned-after-construction"},
+                            {"kind": c["kind"], "f": c["f"], "constructed_with": c["from"], "observed": {
+                                "pdu": bytes(t["pdu"]["b"]).hex() if t["pdu"]["ok"] else None,
+                                "wire": bytes(t["wire"]["b"]).hex() if t["wire"]["ok"] else None}})
+    rep.traces += len(atraces)
+    rep.evaluations += len(atraces)
+    rep.extra["reused_object_cases"] = len(atraces)
+    rep.extra["kinds_with_assignable_fields"] = len({c["kind"] for c in acases})
     rep.exhaustive = True
     rep.extra["exhaustive_space"] = (f"the abstract case space of spec/UdsLayout.tla (MaxGroups={max_groups}): "
                                      f"{n_tlc_cases} cases, each executed once")
